@@ -184,7 +184,7 @@ pub fn run(ctx: &Ctx) -> Report {
         &format!("generated[{}]", ctx.variant),
         "model menu x (w,h,ox,oy) in u16^4 biased around 0, FB, 65535-FB, 65535 and with offset derived so that offset+size is within +-2 of FB or of 65536 x reset pin x orientation; oracle: u64 reference predicate, error kind, and on rejection zero pin/bus/delay activity",
     );
-    run_generated(&mut sec, ctx.seed, ctx.cases(300_000, 10_000_000), ctx.workers, strategy, check, sig);
+    run_generated(&mut sec, ctx.seed, ctx.cases(1_000_000, 30_000_000), ctx.workers, strategy, check, sig);
     rep.sections.push(sec);
     rep
 }
